@@ -93,6 +93,28 @@ def run_case(c):
                 r["read"] = r["out"] if r["ok"] else {"tracks": [], "bpm": 0}
                 r["out"] = 0
                 R.append(r)
+    elif k == "ticks":
+        # one 4/4 bar whose entries last any whole number of MIDI ticks: value = 288 / k
+        from .program import mk_note
+        def build_and_read():
+            b = Bar("C", (4, 4))
+            for e in c["entries"]:
+                v = 288.0 / e["mt"]
+                ok = b.place_notes(NoteContainer([mk_note(x) for x in e["notes"]]), v) if e["notes"] else b.place_rest(v)
+                if not ok:
+                    raise Shape("construction refused by the library (entry does not fit)")
+            t = Track()
+            t.add_bar(b)
+            comp = Composition()
+            comp.add_track(t)
+            rd = read_proj(*roundtrip(comp, 120))
+            if len(rd["tracks"]) != 1:
+                raise Shape("one track written, %d read" % len(rd["tracks"]))
+            return [e for bar in rd["tracks"][0]["bars"] for e in bar["entries"]]
+        r = call("rt_ticks", {"entries": c["entries"]}, build_and_read)
+        r["read"] = r["out"] if r["ok"] else []
+        r["out"] = 0
+        R.append(r)
     elif k == "bpm":
         for bpm in c["bpms"]:
             R.append(call("bpm", {"bpm": bpm}, lambda: roundtrip(simple_comp(), bpm)[1], integer))
